@@ -163,6 +163,31 @@ fn check_lean(_inner: &CQueueLLAllocatorInner, b: &Blk) {
     }
 }
 
+/// free-list invariant (<= 3 regions inspected): every free region lies inside one page and
+/// does not overlap the given live blocks
+fn free_list_ok(inner: &CQueueLLAllocatorInner, live: &[Blk]) {
+    let mut cur = &inner.head;
+    let mut k = 0;
+    while k < 3 {
+        match &cur.next {
+            Some(r) => {
+                let s = r.start_addr();
+                assert!((s & 127) + r.size <= 128, "C15 a free region never extends past the end of its page");
+                let mut j = 0;
+                while j < live.len() {
+                    if live[j].live {
+                        assert!(s + r.size <= live[j].p || live[j].p + live[j].padded <= s, "C15 a free region never overlaps a live allocation");
+                    }
+                    j += 1;
+                }
+                cur = r;
+            }
+            None => return,
+        }
+        k += 1;
+    }
+}
+
 fn disjoint(a: &Blk, b: &Blk) -> bool {
     a.p + a.padded <= b.p || b.p + b.padded <= a.p
 }
@@ -178,6 +203,7 @@ fn alloc2(l0: Layout, l1: Layout) {
     check_lean(&inner, &b1);
     assert!(disjoint(&b0, &b1), "C15 allocation does not overlap a live allocation");
     assert!(inner.allocated_mem == b0.padded + b1.padded, "C15 allocated_mem == sum of live padded sizes");
+    free_list_ok(&inner, &[b0, b1]);
     kani::cover!(true, "REACH end of harness");
     std::mem::forget(inner);
 }
